@@ -506,6 +506,13 @@ class ExecBase:
             return self.for_unrolled(node, st, items)
         spec = self.loop_spec(node)
         seq = self.as_seq(st, itv)
+        if seq is None and isinstance(itv, VRef) and isinstance(st.deref(itv), HObj) and spec is not None and spec.invariant is not None:
+            h = st.deref(itv)
+            if load.find_method(h.cls[0], h.cls[1], "__next__") is not None:
+                return self.loop_with_invariant(node, st, spec, kind="iter", itv=itv)
+        if seq is None and isinstance(itv, (VU, VOpaque)) and spec is not None and spec.invariant is not None:
+            # unknown iterable: its items are an uninterpreted sequence
+            seq = z3.Function("items_of", U, I, SeqU)(itv.t, z3.IntVal(st.world))
         if seq is None:
             raise Unsupported(f"for loop over {itv!r} at line {node.lineno}")
         if spec is None or spec.invariant is None:
@@ -562,7 +569,8 @@ class ExecBase:
         for name in sorted(mod_names):
             old = hst.locals.get(name)
             hst.locals[name] = self.havoc_like(old, name)
-        for ref, fld in spec.havoc_heap:
+        hh = spec.havoc_heap(hst) if callable(spec.havoc_heap) else spec.havoc_heap
+        for ref, fld in hh:
             self.havoc_heap_loc(hst, ref, fld)
         idx = fresh("k", I) if kind == "for" else None
         if kind == "for":
@@ -575,10 +583,26 @@ class ExecBase:
         out = []
         # 3. one arbitrary iteration
         body_st = hst.fork()
+        iter_items = {}
         if kind == "for":
             guard_results = [(body_st.assume(idx < z3.Length(seq)), True)] if feasible(body_st.pc + [idx < z3.Length(seq)]) else []
             exit_st = hst.fork().assume(idx == z3.Length(seq))
             exits = [exit_st] if feasible(exit_st.pc) else []
+        elif kind == "iter":
+            guard_results = []
+            exits = []
+            h = body_st.deref(itv)
+            m = load.find_method(h.cls[0], h.cls[1], "__next__")
+            f = VFunc(m[2], load.get_module(m[0]), None, f"{m[1]}.__next__", (m[0], m[1]))
+            for s, v in self.call_function(body_st, f, [], {}, self_val=itv):
+                if isinstance(v, Raised):
+                    if self.is_subclass(v.exc.cls, "StopIteration"):
+                        exits.append(s)
+                    else:
+                        out.append((s, v))
+                else:
+                    iter_items[id(s)] = v
+                    guard_results.append((s, True))
         else:
             guard_results = []
             exits = []
@@ -597,6 +621,8 @@ class ExecBase:
                 var_before = spec.variant(LoopEnv(s, idx, seq))
                 self.obligations.append(Obligation("variant", f"{where}:variant>=0", s.pc, var_before >= 0, where))
             starts = [(s, None)]
+            if kind == "iter":
+                starts = self.assign(node.target, iter_items[id(s)], s)
             if kind == "for":
                 item = unbox(seq[idx])
                 if it_ref is not None:
